@@ -163,6 +163,19 @@ def run(prog, chk):
                        'measured again counts as `?`, not as its stale outcome' % (t, last), key='reset-forgets:%s:%s' % (f.short, t[:24]))
         chk.count('evaluator reset sites', nrs, 3)
         chk.count('functions that forget a last measurement', len(base), 1)
+    # ---- R17.1b: an object's tracked fields are sampled when the object ends, i.e. after its destructors ran --------------
+    do = R.ev_method('destroyObject')
+    gd = prog.cfg(do)
+    recs = [c for c in gd.calls(lambda e: e['k'] == 'mcall' and e.get('callee') == rec.name)]
+    execs_d = [c for c in gd.calls(lambda e: e['k'] == 'mcall' and SX.short(e.get('callee', '')) == 'exec' and e['callee'].startswith(R.ev['name']))]
+    if not recs:
+        chk.ob('R17.1', do, do.ln, False, 'destroyObject records the tracked fields of the object it ends (no reachable recorder call found)', key='object-fields-recorded')
+    for c in recs:
+        r_ = gd.reachable([c])
+        late = [x for x in execs_d if x.id in r_]
+        chk.ob('R17.1', do, c.ln or do.ln, not late,
+               'the tracked fields of an object are sampled after its destructor chain has run (a destructor may still measure them): the sample must be the last measurement at the '
+               'moment the object ends', key='object-fields-after-destructors')
     # ---- R17.4 / R17.5 CLI ---------------------------------------------------------------------
     _cli(prog, chk, R)
 
